@@ -154,7 +154,9 @@ impl HttpSlateSender {
 			Error::ClientCallback(report)
 		})?;
 
-		let res: Value = serde_json::from_str(&res).unwrap();
+		let res: Value = serde_json::from_str(&res).map_err(|e| {
+			Error::ClientCallback(format!("Invalid response to version check: {}", e))
+		})?;
 		trace!("Response: {}", res);
 		if res["error"] != json!(null) {
 			let report = format!(
@@ -168,9 +170,13 @@ impl HttpSlateSender {
 		let resp_value = res["result"]["Ok"].clone();
 		trace!("resp_value: {}", resp_value.clone());
 		let foreign_api_version: u16 =
-			serde_json::from_value(resp_value["foreign_api_version"].clone()).unwrap();
-		let supported_slate_versions: Vec<String> =
-			serde_json::from_value(resp_value["supported_slate_versions"].clone()).unwrap();
+			serde_json::from_value(resp_value["foreign_api_version"].clone()).map_err(|e| {
+				Error::ClientCallback(format!("Invalid response to version check: {}", e))
+			})?;
+		let supported_slate_versions: Vec<String> = serde_json::from_value(
+			resp_value["supported_slate_versions"].clone(),
+		)
+		.map_err(|e| Error::ClientCallback(format!("Invalid response to version check: {}", e)))?;
 
 		// trivial tests for now, but will be expanded later
 		if foreign_api_version < 2 {
@@ -257,7 +263,9 @@ impl SlateSender for HttpSlateSender {
 			Error::ClientCallback(report)
 		})?;
 
-		let res: Value = serde_json::from_str(&res).unwrap();
+		let res: Value = serde_json::from_str(&res).map_err(|e| {
+			Error::ClientCallback(format!("Invalid response from other wallet: {}", e))
+		})?;
 		trace!("Response: {}", res);
 		if res["error"] != json!(null) {
 			let report = format!(
